@@ -79,7 +79,9 @@ fn directory_exact(sim: &SimDirectory) -> Result<(), String> {
     }
     let extra: Vec<&String> = files.difference(&want).collect();
     if !extra.is_empty() {
-        return Err(format!("files left behind after the final collection: {extra:?}"));
+        let listed: Vec<String> = String::from_utf8(sim.read_file(".managed.json").unwrap_or_default()).ok().and_then(|t| serde_json::from_str::<Vec<String>>(&t).ok()).unwrap_or_default();
+        let unlisted: Vec<&&String> = extra.iter().filter(|f| !listed.contains(**f)).collect();
+        return Err(format!("files left behind after the final collection: {extra:?} (of which not in the persisted managed list: {unlisted:?})"));
     }
     let managed: BTreeSet<String> = index.directory().list_managed_files().into_iter().map(|p| p.to_string_lossy().to_string()).collect();
     let want_managed: BTreeSet<String> = want.iter().filter(|f| !f.starts_with('.')).cloned().collect();
@@ -427,7 +429,11 @@ pub fn run(ctx: &Ctx) -> Report {
         let Ok(v) = serde_json::from_str::<Value>(&l) else { continue };
         if v["t"] == "V" {
             let c = &work[v["idx"].as_u64().unwrap_or(0) as usize];
-            st.violation(Violation::new(v["rule"].as_str().unwrap_or("?"), format!("{}: {}", desc(c), v["what"].as_str().unwrap_or("")), serde_json::to_value(c).unwrap()));
+            let mut cj = serde_json::to_value(c).unwrap();
+            if c.cfg.workers >= 2 || c.cfg.dedicated_compressor || v["rule"] == "directory_not_exact_after_recovery" {
+                cj["timing_dependent"] = json!(true);
+            }
+            st.violation(Violation::new(v["rule"].as_str().unwrap_or("?"), format!("{}: {}", desc(c), v["what"].as_str().unwrap_or("")), cj));
         } else if v["t"] == "S" {
             st.evaluations += v["evals"].as_u64().unwrap_or(0);
             if let Some(c) = v["counters"].as_object() {
